@@ -15,7 +15,7 @@ SIZES = [0, 1, 1023, 1024, 1025, 2500, 5000]
 
 
 def file_mtime_ns(path, size, v, nsec=500):
-    h = int.from_bytes(hashlib.blake2b(("%s:%d:%d" % (path, size, v)).encode(), digest_size=3).digest(), "big")
+    h = int.from_bytes(hashlib.blake2b(("%s:%d:%d" % (path, size, v)).encode(errors="surrogateescape"), digest_size=3).digest(), "big")
     return (labmod.T0 + 1000 + h % 100000) * 10**9 + nsec
 
 
@@ -63,6 +63,13 @@ def apply_op(lab, op, **runkw):
         lab.rm(op[1], op[2])
     elif k == "clock":
         lab.time += op[1]
+    elif k == "emptydisk":
+        from . import faults
+        faults.lose_disk(lab, op[1])
+    elif k == "dropdisk":
+        names = [n for n in lab.cfg.disknames if n != op[1]]
+        lab.cfg = lab.cfg.clone(disknames=names, ndisks=len(names))
+        lab.write_conf()
     elif k == "cmd":
         return lab.run(op[1], *op[2:], **runkw)
     else:
